@@ -26,7 +26,9 @@ TRUSTED = ["Coq 8.16.1 kernel, vm_compute for the correspondence evaluation",
            "LAPACK symmetric eigen-solver (np.linalg.eigh): trusted through its contract (orthonormal eigenvectors of "
            "the covariance), which the correspondence re-checks on every fitted cloud against the model's covariance",
            "math.cos / math.sin / arccos: NumPy's values passed as data, re-checked against the model's own "
-           "trigonometry on the `tilted_full` cases",
+           "trigonometry on the `tilted_full` cases (20 in quick, 60 in thorough); the pieces of Plane.tilted are traced: "
+           "its first statements (tilt_prefix), vg.reject, vg.signed_angle (symbolic and z viewing direction, both signs), "
+           "vg.rotate with a symbolic angle; their composition inside Plane.tilted is tied by the correspondence",
            "NumPy, vg"]
 CASE_IMPORTS = [("PW.model", "M_plane"), ("PW.model", "M_plane_ctor")]
 ASSUMPTIONS = ["theorems are about exact real arithmetic",
@@ -88,6 +90,117 @@ Proof. intros. unfold {T}. cbv zeta. %s. %s. Qed.""" % (EQ.format(*range(9)), EQ
         lambda t: plane_normal_from_points(t, normalize=False),
         """Lemma {T}_ok : forall {vars} : R, {T} ROps {vars} = vlist (tri_cross ROps (V3 t0 t1 t2) (V3 t3 t4 t5) (V3 t6 t7 t8)).
 Proof. intros. unfold {T}. cbv zeta. %s. %s. Qed.""" % (unf, solve), imports=IMPORTS, perturb=1e-3))
+    ks.extend(_tilt_kernels())
+    return ks
+
+
+class _MathShim:
+    """vg.rotate calls math.cos / math.sin on the angle; during a trace the angle is symbolic"""
+
+    def __getattr__(self, name):
+        return getattr(math, name)
+
+    def cos(self, x):
+        return x.cos() if hasattr(x, "cos") and not isinstance(x, float) else math.cos(x)
+
+    def sin(self, x):
+        return x.sin() if hasattr(x, "sin") and not isinstance(x, float) else math.sin(x)
+
+
+def _with_math_shim(f):
+    import vg.core as vc
+
+    def g(*a, **kw):
+        old = vc.math
+        vc.math = _MathShim()
+        try:
+            return f(*a, **kw)
+        finally:
+            vc.math = old
+    return g
+
+
+def _tilt_kernels():
+    """Plane.tilted piece by piece (its own first statements, and the vg helpers it calls, each on fresh symbols)"""
+    from polliwog import Plane
+    from vg.compat import v2 as vg
+
+    ks = []
+    # congruence up to `ring` at the leaves; purely syntactic head matching (conversion on Reals' operations is avoided:
+    # `reflexivity` / `f_equal` on different heads make the unifier unfold Rplus / Rmult and overflow the stack)
+    cr = ("Ltac cr := lazymatch goal with\n"
+          "  | |- ?x = ?x => reflexivity\n"
+          "  | |- ?a + ?b = ?c + ?d => first [apply f_equal2; cr | timeout 3 ring]\n"
+          "  | |- ?a - ?b = ?c - ?d => first [apply f_equal2; cr | timeout 3 ring]\n"
+          "  | |- ?a * ?b = ?c * ?d => first [apply f_equal2; cr | timeout 3 ring]\n"
+          "  | |- ?a / ?b = ?c / ?d => first [apply f_equal2; cr | timeout 3 ring]\n"
+          "  | |- - ?a = - ?b => apply f_equal; cr\n"
+          "  | |- sqrt ?a = sqrt ?b => apply f_equal; cr\n"
+          "  | |- acos ?a = acos ?b => apply f_equal; cr\n"
+          "  | |- cos ?a = cos ?b => apply f_equal; cr\n"
+          "  | |- sin ?a = sin ?b => apply f_equal; cr\n"
+          "  | |- _ => timeout 3 ring\n"
+          "  end.\n")
+    unfv = "cbv [tilt_old tilt_new tilt_axis plane_project project_eq translate_along sd_eq plane_equation eq_normal ea eb ec ed pref pnormal vg_reject vg_angle_cos vg_rotate_cs vnormalize vnorm vnorm2 vdivs vdot vcross vsub vadd vscale vlist vx vy vz app]; rops"
+    PL = "(MkPlane (V3 r0 r1 r2) (V3 m0 m1 m2))"
+
+    def prefix(r, m, p, c):
+        pl = Plane(r, m)
+        vo = pl.project_point(p) - c
+        vn = p - c
+        return (vo, vn, vg.perpendicular(vo, pl.normal))
+
+    ks.append(Kernel(
+        "tilt_prefix", {"r": [0.5, 0.25, -0.5], "m": [0.6, 0.0, 0.8], "p": [2.0, 1.0, 1.5], "c": [1.3, -0.75, -1.1]}, prefix,
+        cr + """Lemma {T}_ok : forall {vars} : R, {T} ROps {vars} =
+  vlist (tilt_old ROps %s (V3 p0 p1 p2) (V3 c0 c1 c2)) ++ vlist (tilt_new ROps (V3 p0 p1 p2) (V3 c0 c1 c2)) ++
+  vlist (tilt_axis ROps %s (V3 p0 p1 p2) (V3 c0 c1 c2)).
+Proof. intros. unfold {T}. cbv zeta. %s. list_eq ltac:(idtac; cr). Qed.""" % (PL, PL, unfv), imports=IMPORTS, perturb=1e-9))
+
+    A_, B_, L_ = "(V3 a0 a1 a2)", "(V3 b0 b1 b2)", "(V3 l0 l1 l2)"
+    # vg.reject with a symbolic direction
+    ks.append(Kernel(
+        "vg_reject", {"a": [1.0, 0.5, 0.2], "l": [0.1, 0.2, 1.0]}, lambda a, l: vg.reject(a, from_v=l),
+        cr + """Lemma {T}_ok : forall {vars} : R, {T} ROps {vars} = vlist (vg_reject ROps %s %s).
+Proof. intros. unfold {T}. cbv zeta. %s. list_eq ltac:(idtac; cr). Qed.""" % (A_, L_, unfv), imports=IMPORTS, perturb=1e-3))
+    # vg.signed_angle (reject both vectors, cosine, clip, arccos, sign of the triple product) seen along the z axis
+    zlook = np.array([0.0, 0.0, 1.0])
+    for name, a, b in (("pos", [1.0, 0.5, 0.2], [0.3, 1.0, -0.4]), ("neg", [0.3, 1.0, -0.4], [1.0, 0.5, 0.2])):
+        ks.append(Kernel(
+            "vg_signed_angle_" + name, {"a": a, "b": b},
+            lambda a, b: vg.signed_angle(a, b, look=zlook, units="rad"),
+            cr + """Lemma m1 (y : R) : -1 * y = - y.
+Proof. ring. Qed.
+Lemma nz : vnormalize ROps (V3 0 0 1) = V3 0 0 1.
+Proof. unfold vnormalize, vnorm, vnorm2, vdot, vdivs. rops. cbn [vx vy vz]. replace (0 * 0 + 0 * 0 + 1 * 1) with 1 by ring. rewrite sqrt_1. apply V3_ext; field. Qed.
+Lemma {T}_ok : forall {vars} : R, {T}_path ROps {vars} -> {T} ROps {vars} = [vg_signed_angle ROps %s %s (V3 0 0 1)].
+Proof. intros {vars} Hpath. unfold {T}_path in Hpath. cbv zeta in Hpath. rops. path_facts Hpath.
+  unfold {T}, vg_signed_angle, vg_angle_cos, vg_reject, nclip, nsign, n1. rewrite nz. cbv zeta. rops.
+  cbv [vnorm vnorm2 vdot vcross vsub vscale vx vy vz]. rops.
+  match goal with Hlo : _ <= ?x', Hhi : ?x' <= 1 |- context [Rltb ?x (- _)] => replace x' with x in Hlo, Hhi by cr end.
+  repeat match goal with |- context [Rltb ?a ?b] => destruct (Rltb_spec a b); try (exfalso; lra) end.
+  cbn [Z.eqb Pos.eqb]; rewrite ?Rmult_1_l, ?m1;
+  apply cons_eq; [cr|reflexivity]. Qed.""" % (A_, B_), imports=IMPORTS, perturb=1e-3))
+    # the same with a symbolic viewing direction
+    ks.append(Kernel(
+        "vg_signed_angle_look", {"a": [1.0, 0.5, 0.2], "b": [0.3, 1.0, -0.4], "l": [0.1, 0.2, 1.0]},
+        lambda a, b, l: vg.signed_angle(a, b, look=l, units="rad"),
+        cr + """Lemma m1 (y : R) : -1 * y = - y.
+Proof. ring. Qed.
+Lemma {T}_ok : forall {vars} : R, {T}_path ROps {vars} -> {T} ROps {vars} = [vg_signed_angle ROps %s %s %s].
+Proof. intros {vars} Hpath. unfold {T}_path in Hpath. cbv zeta in Hpath. rops. path_facts Hpath.
+  unfold {T}, vg_signed_angle, vg_angle_cos, vg_reject, nclip, nsign, n1. cbv zeta. rops.
+  cbv [vnormalize vdivs vnorm vnorm2 vdot vcross vsub vscale vx vy vz]. rops.
+  match goal with Hlo : _ <= ?x', Hhi : ?x' <= 1 |- context [Rltb ?x (- _)] => replace x' with x in Hlo, Hhi by cr end.
+  repeat match goal with |- context [Rltb ?a ?b] => destruct (Rltb_spec a b); try (exfalso; lra) end.
+  cbn [Z.eqb Pos.eqb]; rewrite ?Rmult_1_l, ?m1;
+  apply cons_eq; [cr|reflexivity]. Qed.""" % (A_, B_, L_), imports=IMPORTS, perturb=1e-3))
+    # vg.rotate (Rodrigues) with math.cos / math.sin of a symbolic angle
+    ks.append(Kernel(
+        "vg_rotate", {"a": [1.0, 0.5, 0.2], "l": [0.1, 0.2, 1.0], "t": [0.7]},
+        _with_math_shim(lambda a, l, t: vg.rotate(a, around_axis=l, angle=t[0], units="rad")),
+        cr + """Lemma {T}_ok : forall {vars} : R, {T} ROps {vars} = vlist (vg_rotate_cs ROps %s %s (cos t0) (sin t0)).
+Proof. intros. unfold {T}. cbv zeta. %s. list_eq ltac:(idtac; cr). Qed.""" % (A_, L_, unfv), imports=IMPORTS, perturb=1e-3))
     return ks
 
 
@@ -166,8 +279,8 @@ def _tilt_cs(pl, newp, cop):
 
 def gen_cases(rng, n, tier):
     cases = [{"kind": "coord"}] + _structured_cases(rng, tier)
-    full_budget = 2 if tier == "quick" else 12
-    full_exact_budget = 2 if tier == "quick" else 12
+    full_budget = 10 if tier == "quick" else 30
+    full_exact_budget = 10 if tier == "quick" else 30
     for i in range(n):
         u = rng.random()
         sc = _scale(rng, tier)
@@ -224,7 +337,7 @@ def gen_cases(rng, n, tier):
                     pts = [[rng.randint(-8, 8) / 2, rng.randint(-8, 8) / 2, 1.5] for _ in range(k)]
             c = {"kind": "fit_" + mode, "points": [_sv(p, sc) for p in pts]}
             if _fit_tie(c["points"]):
-                c["kind"] += "_tie_oracle_only"  # the eigenbasis is not determined: judged by the oracle, skipped in Coq
+                c["kind"] += "_tie"  # the eigenbasis is not determined: Coq checks the weaker observable (CFitTie)
             cases.append(c)
             if rng.random() < 0.04:
                 # fewer than two points (outside the property's domain): the model says LinAlgError
@@ -427,7 +540,8 @@ def coq_case(c, o):
         sc = max(1e-300, float(np.max(np.abs(w))))
         gaps = [abs(w[i] - w[j]) for i in range(3) for j in range(i)]
         if min(gaps) <= 1e-7 * sc:
-            return "CSkip"  # tie: the eigenbasis (hence the sign pattern of the cross product) is not determined
+            # tie: the eigenbasis (hence the plane) is not determined; check what every correct answer shares
+            return "CFitTie %s %s %s" % (coq_list(qv(p) for p in c["points"]), q(w[0]), _obs(o))
         e = "(Eig3 %s %s %s %s %s %s)" % (q(w[0]), q(w[1]), q(w[2]), qv(v[:, 0]), qv(v[:, 1]), qv(v[:, 2]))
         return "CFit %s %s %s" % (coq_list(qv(p) for p in c["points"]), e, _obs(o))
     if k.startswith("tilted"):
